@@ -158,10 +158,10 @@ func (k primKind) String() string {
 // primOverride adjusts the default specification of a primitive.
 type primOverride struct {
 	kind       primKind
-	inlineOnly string         // reason why the function is only analysed inlined into its callers
-	rawAny     bool           // raw limb-array parameters range over the whole word (documented as such)
-	intPre     map[int]Itv    // pre-condition on integer parameters
-	note       string         // shown in the table
+	inlineOnly string      // reason why the function is only analysed inlined into its callers
+	rawAny     bool        // raw limb-array parameters range over the whole word (documented as such)
+	intPre     map[int]Itv // pre-condition on integer parameters
+	note       string      // shown in the table
 }
 
 // overrides are keyed by back end and function name (resolved objects of
@@ -508,6 +508,20 @@ func CheckFieldStageA(run *report.Run, p *load.Program, rulePrefix string) []*Pr
 			})
 		}
 		_ = wrapped
+		// declared post-condition: a reduced output is within the documented bound
+		if post != nil && (ov.kind == kindReducing || ov.kind == kindDoubling) {
+			o := a.entryObligation(ClsPost, load.FuncName(fn), p.Pos(fn.Pos()), "declared post-condition", "every output limb is within the documented reduced bound ("+ov.kind.String()+")")
+			o.Evals++
+			for i := range post {
+				d := be.D[i]
+				if ov.kind == kindDoubling {
+					d = new(big.Int).Lsh(d, 1)
+				}
+				if post[i].Cmp(d) > 0 {
+					o.fail(fmt.Sprintf("output limb %d may reach %s, above the documented bound %s of a %s primitive (%s)", i, fmtBig(post[i]), fmtBig(d), ov.kind, be.DDoc))
+				}
+			}
+		}
 		res.Obligations = a.oblOrder
 		rules.ReportResult(res)
 
@@ -565,9 +579,11 @@ func CheckFieldStageA(run *report.Run, p *load.Program, rulePrefix string) []*Pr
 
 	be.checkClosure(run, p, a, rules, rows)
 	be.controls(run, p, a, rules, entries, ovs)
+	rules.Flush()
 
 	run.Extra["stageA_table_"+p.Cfg.ID] = rows
 	run.Extra["stageA_headroom_"+p.Cfg.ID] = be.HDoc
+	run.Extra["stageA_declared_post_"+p.Cfg.ID] = be.DDoc
 	run.Extra["stageA_idioms_"+p.Cfg.ID] = totalIdioms
 	run.Extra["stageA_summarised_callees_"+p.Cfg.ID] = totalSummarised
 	return rows
@@ -604,55 +620,74 @@ func appendUnique(l []string, s string) []string {
 	return append(l, s)
 }
 
-// checkClosure checks that the pre-conditions are consistent: with R the
-// limb-wise maximum of the post-conditions of all reducing primitives, the
-// sum of any two outputs (one further Add) must satisfy the headroom H that
-// every primitive (Mul, Square, Pow2k, Sub, Neg, ...) assumes of its inputs.
-// The bound of Add itself is obtained by analysing Add on inputs <= R.
+// checkClosure checks that the pre-conditions are consistent.  Every
+// reducing primitive was checked (class post) to stay within the documented
+// bound D of a reduced limb, every doubling primitive within 2D.  Closure:
+// the sum of any two primitive outputs (one further Add) must satisfy the
+// headroom H that Mul / Square / Pow2k / Sub / Neg / ... assume of their
+// inputs.  It is checked (i) per primitive with its derived post-condition,
+// post(P) + Dmax <= H, (ii) for the declared bounds alone, Dmax + Dmax <= H,
+// and (iii) by analysing Add itself on inputs <= Dmax (its output is not
+// assumed to be the sum).  Sub and Neg reduce, so their outputs are covered
+// by (i).
 func (be *FieldBackend) checkClosure(run *report.Run, p *load.Program, a *Analyzer, rules *Rules, rows []*PrimRow) {
 	ru := rules.Rule(ClsClosure)
 	R := make([]*big.Int, be.Limbs)
+	Dmax := append([]*big.Int(nil), be.D...)
 	for i := range R {
 		R[i] = bigZero
 	}
-	n := 0
+	n, doubling := 0, false
 	for _, r := range rows {
-		if r.post != nil && r.kind == kindReducing {
+		if r.post != nil && (r.kind == kindReducing || r.kind == kindDoubling) {
 			n++
+			doubling = doubling || r.kind == kindDoubling
 			for i := range R {
 				R[i] = maxBig(R[i], r.post[i])
 			}
+		}
+	}
+	if doubling {
+		for i := range Dmax {
+			Dmax[i] = new(big.Int).Lsh(be.D[i], 1)
 		}
 	}
 	if n == 0 {
 		ru.Failf("-", fieldRel, "[%s] no reducing primitive with a derived post-condition: closure cannot be checked", p.Cfg.ID)
 		return
 	}
-	for _, r := range rows {
-		if r.post == nil || r.kind != kindReducing {
-			continue
-		}
-		bad := ""
-		for i := range R {
-			if s := new(big.Int).Add(r.post[i], R[i]); s.Cmp(be.H[i]) > 0 {
-				bad = fmt.Sprintf("limb %d: post(%s) %s + max post %s = %s exceeds the headroom %s assumed by Mul/Square/Pow2k/Sub/Neg",
-					i, r.Primitive, fmtBig(r.post[i]), fmtBig(R[i]), fmtBig(s), fmtBig(be.H[i]))
-				break
+	exceeds := func(x, y []*big.Int) string {
+		for i := range x {
+			if s := new(big.Int).Add(x[i], y[i]); s.Cmp(be.H[i]) > 0 {
+				return fmt.Sprintf("limb %d: %s + %s = %s exceeds the headroom %s assumed by Mul/Square/Pow2k/Sub/Neg", i, fmtBig(x[i]), fmtBig(y[i]), fmtBig(s), fmtBig(be.H[i]))
 			}
 		}
-		if bad == "" {
+		return ""
+	}
+	// (i) per primitive
+	for _, r := range rows {
+		if r.post == nil || (r.kind != kindReducing && r.kind != kindDoubling) {
+			continue
+		}
+		if bad := exceeds(r.post, Dmax); bad == "" {
 			ru.OK("closure: " + r.Primitive)
 		} else {
-			ru.Fail(p.Pos(r.fn.Pos()), r.Primitive, "post-condition does not re-establish the pre-condition after one Add: "+bad, nil)
+			ru.Fail(p.Pos(r.fn.Pos()), r.Primitive, "output of "+r.Primitive+" plus the largest documented output of any primitive is not an admissible input: "+bad, nil)
 		}
 	}
-	// Add on two outputs: analysed, not assumed to be the sum
+	// (ii) declared bounds
+	if bad := exceeds(Dmax, Dmax); bad == "" {
+		ru.OK("closure: declared bounds")
+	} else {
+		ru.Fail("-", fieldRel, "the documented output bounds do not re-establish the documented input headroom after one Add: "+bad, nil)
+	}
+	// (iii) Add on two outputs: analysed, not assumed to be the sum
 	addFn := p.Func(fieldRel, "(*Element).Add")
 	if addFn == nil {
 		ru.Failf("-", fieldRel+".(*Element).Add", "anchor (*Element).Add not found")
 		return
 	}
-	res := a.AnalyzeFunc(addFn, fieldSpec(be, addFn, primOverride{}, R), false)
+	res := a.AnalyzeFunc(addFn, fieldSpec(be, addFn, primOverride{}, Dmax), false)
 	post, _, wrapped := be.elementOutputs(res)
 	ok := post != nil && len(wrapped) == 0 && len(res.Undecided) == 0
 	msg := ""
@@ -673,11 +708,12 @@ func (be *FieldBackend) checkClosure(run *report.Run, p *load.Program, a *Analyz
 		ru.Fail(p.Pos(addFn.Pos()), load.FuncName(addFn), "sum of two primitive outputs violates the pre-condition of Mul/Square: "+msg, nil)
 	}
 	run.Extra["stageA_closure_"+p.Cfg.ID] = map[string]any{
-		"max_post_of_reducing_primitives": fmtLimbs(R),
-		"after_one_add":                   fmtLimbs(post),
-		"headroom":                        fmtLimbs(be.H),
-		"reducing_primitives":             n,
-		"holds":                           ok,
+		"declared_output_bound":       fmtLimbs(Dmax),
+		"derived_max_post":            fmtLimbs(R),
+		"add_of_two_declared_outputs": fmtLimbs(post),
+		"headroom":                    fmtLimbs(be.H),
+		"output_producing_primitives": n,
+		"holds":                       ok,
 	}
 }
 
